@@ -28,7 +28,7 @@ STATE_MEASURE = 'distinct (rule key set, near-miss kind, matched?) triples at pr
 PROBES = ['signal-matches-some-rule', 'near-miss-path-sibling', 'near-miss-namespace-sibling',
           'arg-missing', 'arg-non-string', 'argpath-trailing-slash-rule', 'argpath-trailing-slash-arg',
           'type-constraint-other', 'signal-while-add-pending', 'signal-while-del-pending',
-          'signal-after-removal', 'callback-raised', 'callable-shared-by-rules', 'shared-callable-ran-per-rule', 'proxy-signal-right-signature',
+          'signal-after-removal', 'callback-raised', 'addmatch-refused', 'rule-cancelled-from-its-callback', 'callable-shared-by-rules', 'shared-callable-ran-per-rule', 'proxy-signal-right-signature',
           'proxy-signal-wrong-signature', 'two-rules-one-signal', 'apostrophe-in-value',
           'empty-body-with-arg-rule', 'proxy-subscription-without-interface',
           'same-rule-id-on-two-connections']
@@ -181,6 +181,7 @@ def scenario(ctx):
 
     # the daemon holds AddMatch / RemoveMatch replies back: they are scheduler actions
     held = []
+    daemon_rules = []     # rule texts the daemon accepted and still holds
 
     def on_msg(m):
         if m.mtype == rc.METHOD_CALL and m.fields.get(rc.F_MEMBER) in ('AddMatch', 'RemoveMatch'):
@@ -197,6 +198,19 @@ def scenario(ctx):
             idx = self.idx
             invoked.append((idx, a))
             sim.log('sig-cb', idx)
+            r = rules[idx]
+            if r.get('oneshot') and r['state'] == 'active' and r['id'] is not None:
+                # a one-shot handler: cancels its own rule from inside the callback
+                r['state'] = 'deleting'
+                n0 = len(rig.sent)
+                if r['proxy_sig'] is not None:
+                    proxy[0].cancelSignalNotification(r['id'])
+                else:
+                    cl.delMatch(r['id'])
+                for m in rig.sent[n0:]:
+                    if m.mtype == rc.METHOD_CALL and m.fields.get(rc.F_MEMBER) == 'RemoveMatch':
+                        pending_calls[m.serial] = (idx, 'del')
+                sim.probe('rule-cancelled-from-its-callback')
             if rules[idx]['raises']:
                 sim.probe('callback-raised')
                 if rules[idx]['raises'] == 2:
@@ -225,7 +239,7 @@ def scenario(ctx):
             dd = d_sig2 if which == 'org.sim.I2' else d_sig
             spec = {'mtype': 'signal', 'path': '/a/b', 'member': sname, 'interface': dd.name}
             r = {'spec': spec, 'state': 'adding', 'raises': False, 'proxy_sig': dict(dd.signals)[sname],
-                 'id': None, 'which': which}
+                 'id': None, 'which': which, 'oneshot': ds.flag(0.15)}
             rules.append(r)
             scan_sent()
             sim.log('op', 'notifyOnSignal', sname)
@@ -241,8 +255,9 @@ def scenario(ctx):
             rules.append(r)
             # one callable (a bound method: equal, not identical, on every access) may serve
             # several rules; it must then run once per satisfied rule
-            earlier = [i for i, q in enumerate(rules[:-1]) if q['proxy_sig'] is None]
-            if earlier and ds.flag(0.25):
+            earlier = [i for i, q in enumerate(rules[:-1]) if q['proxy_sig'] is None and not q.get('oneshot')]
+            r['oneshot'] = ds.flag(0.15)
+            if earlier and not r['oneshot'] and ds.flag(0.25):
                 owner = rules[ds.pick(earlier)]['cb']
                 r['cb'] = owner
                 r['raises'] = rules[owner]['raises']
@@ -300,7 +315,8 @@ def scenario(ctx):
         pending_calls[calls[0].serial] = (idx, 'del')
 
     def op_signal():
-        specs = [r['spec'] for r in rules if r['state'] in ('active', 'adding', 'deleting')]
+        # removed and refused rules stay targets: their callbacks must stay silent
+        specs = [r['spec'] for r in rules]
         path, iface, member, dest, sig, body, kind = gen_signal(ds, specs, sim)
         m = daemon.signal(path, iface, member, sig, body, sender=':1.77', dest=dest,
                           little=not ds.flag(0.15))
@@ -319,6 +335,24 @@ def scenario(ctx):
         for i, m in enumerate(held):
             def reply(i=i, m=m):
                 held.pop(i)
+                text = m.body[0] if m.body else None
+                if m.fields.get(rc.F_MEMBER) == 'AddMatch':
+                    if ds.flag(0.12):
+                        # the daemon refuses the rule
+                        sim.probe('addmatch-refused')
+                        daemon.error(m.serial, 'org.freedesktop.DBus.Error.LimitsExceeded', 's',
+                                     ['too many match rules'], dest=rig.bus_name)
+                        frames.append((pipe_dc.total, 'refusal', m.serial))
+                        return
+                    daemon_rules.append(text)
+                elif text in daemon_rules:
+                    daemon_rules.remove(text)
+                else:
+                    # a rule the daemon does not hold
+                    daemon.error(m.serial, 'org.freedesktop.DBus.Error.MatchRuleNotFound', 's',
+                                 ['no such rule'], dest=rig.bus_name)
+                    frames.append((pipe_dc.total, 'refusal', m.serial))
+                    return
                 daemon.method_return(m.serial, dest=rig.bus_name)
                 frames.append((pipe_dc.total, 'reply', m.serial))
             fires.append(('reply%d' % i, reply))
@@ -348,6 +382,13 @@ def scenario(ctx):
                 idx, what = pending_calls.pop(payload, (None, None))
                 if idx is not None:
                     rules[idx]['state'] = 'active' if what == 'add' else 'gone'
+                continue
+            if kind == 'refusal':
+                # a refused AddMatch: the rule never existed; a refused RemoveMatch: the local
+                # rule may stay or go
+                idx, what = pending_calls.pop(payload, (None, None))
+                if idx is not None and what == 'add':
+                    rules[idx]['state'] = 'gone'
                 continue
             m, nearmiss = payload
             must, may = set(), set()
